@@ -1,17 +1,17 @@
-\* thorough: <=2 groups over 2 names, 2 classes, <=2 records/group, counts 1..2
+\* thorough: 3 classes x <=3 records x counts 1..3, unreduced
 SPECIFICATION Spec
 CONSTANTS
-  UnitSeq <- U2
-  GroupNames = {"g1","g2"}
-  MaxGroups = 2
-  MaxRecs = 2
-  MaxCount = 2
+  UnitSeq <- U3
+  GroupNames = {"g1"}
+  MaxGroups = 1
+  MaxRecs = 3
+  MaxCount = 3
   MCountMin = 1
   EpVals <- EpNone
   ChainCanonical = FALSE
   TenantMode = "forall"
   ExportMode = "focus"
-  SampleMod = 9973
+  SampleMod = 997
   SampleRes = 0
   NearMod = 1
 INVARIANTS ForAllManifests
